@@ -959,8 +959,11 @@ func (node *Node) check(ctx context.Context) error {
 		}
 
 		if node.queueOutgoing(headerRequest) {
-			logger.Verbose(ctx, "Requesting headers after : %s",
-				headerRequest.BlockLocatorHashes[0])
+			// The locator is empty when only the genesis block is stored and no block is requested.
+			if len(headerRequest.BlockLocatorHashes) > 0 {
+				logger.Verbose(ctx, "Requesting headers after : %s",
+					headerRequest.BlockLocatorHashes[0])
+			}
 			node.state.MarkHeadersRequested()
 		}
 	}
